@@ -8,6 +8,8 @@
  *   root=<abs dir>          in-world = relative paths, or absolute below root
  *   trace=<abs file>        trace file (outside root), appended with raw writes
  *   hashseed=<n>            getrandom() serves SplitMix64(n); absent => kernel
+ *   clock=<secs>            wall clock (clock_gettime REALTIME, gettimeofday, time) starts at <secs>
+ *   pid=<n>                 getpid() returns <n>
  *   at=<i>:<kind>[:<arg>]   fault on in-world mutating op number i (0-based)
  *   at=r<j>:<kind>[:<arg>]  fault on in-world read-side op number j (0-based)
  *
@@ -24,7 +26,9 @@
 #include <string.h>
 #include <sys/syscall.h>
 #include <sys/types.h>
+#include <sys/time.h>
 #include <sys/uio.h>
+#include <time.h>
 #include <unistd.h>
 
 #define MAXFD 1024
@@ -64,6 +68,10 @@ static int g_disk_full = 0;
 static struct fdent g_fds[MAXFD];
 static long g_fired = 0;
 static long g_getrandom_calls = 0;
+static int g_have_clock = 0;
+static long g_clock_base = 0;   /* simulated epoch seconds at process start */
+static long g_real_base = 0;    /* real epoch seconds at process start */
+static long g_fake_pid = 0;
 
 /* ---------- tiny helpers (no libc state) ---------- */
 
@@ -202,6 +210,13 @@ __attribute__((constructor)) static void simfs_init(void) {
         } else if (s_starts(p, "hashseed=")) {
             uint64_t v = 0; if (!parse_u64(p + 9, &v)) plan_error("hashseed");
             g_rng = v * 0x9E3779B97F4A7C15ULL + 0x1234567ULL; g_have_seed = 1;
+        } else if (s_starts(p, "clock=")) {
+            long v; if (!parse_long(p + 6, &v)) plan_error("clock");
+            struct timespec ts; raw(SYS_clock_gettime, CLOCK_REALTIME, (long)&ts, 0, 0, 0, 0);
+            g_clock_base = v; g_real_base = ts.tv_sec; g_have_clock = 1;
+        } else if (s_starts(p, "pid=")) {
+            long v; if (!parse_long(p + 4, &v)) plan_error("pid");
+            g_fake_pid = v;
         } else if (s_starts(p, "at=")) {
             if (g_nfaults >= MAXFAULT) plan_error("too many faults");
             struct fault *f = &g_faults[g_nfaults];
@@ -619,4 +634,30 @@ ssize_t getrandom(void *buf, size_t n, unsigned flags) {
         for (int j = 0; j < 8 && i < n; j++, i++) p[i] = (unsigned char)(v >> (8 * j));
     }
     return (ssize_t)n;
+}
+
+/* ---------- clock and process identity ---------- */
+
+int clock_gettime(clockid_t id, struct timespec *ts) {
+    long r = raw(SYS_clock_gettime, id, (long)ts, 0, 0, 0, 0);
+    if (r == 0 && g_active && g_have_clock && id == CLOCK_REALTIME && ts) ts->tv_sec = ts->tv_sec - g_real_base + g_clock_base;
+    return (int)r;
+}
+
+int gettimeofday(struct timeval *tv, void *tz) {
+    long r = raw(SYS_gettimeofday, (long)tv, (long)tz, 0, 0, 0, 0);
+    if (r == 0 && g_active && g_have_clock && tv) tv->tv_sec = tv->tv_sec - g_real_base + g_clock_base;
+    return (int)r;
+}
+
+time_t time(time_t *out) {
+    struct timespec ts;
+    clock_gettime(CLOCK_REALTIME, &ts);
+    if (out) *out = ts.tv_sec;
+    return ts.tv_sec;
+}
+
+pid_t getpid(void) {
+    if (g_active && g_fake_pid) return (pid_t)g_fake_pid;
+    return (pid_t)raw(SYS_getpid, 0, 0, 0, 0, 0, 0);
 }
